@@ -405,12 +405,20 @@ func vortexTree(c *mon.Ctx, N int, rng *gen.Rng) {
 		sizes = append(sizes, 4096, 5000)
 	}
 	for _, n := range sizes {
-		leaves := make([]vortex.Hash, n)
-		for k := range leaves {
-			leaves[k] = mkLeaf(n*4096 + k)
+		// hostile layout: the leaves are a prefix of a larger array whose tail holds other (non-zero) hashes; the tree
+		// is a function of the n leaves only and the tail is not the library's to touch
+		backing := make([]vortex.Hash, 2*n+70)
+		for k := range backing {
+			backing[k] = mkLeaf(n*4096 + k)
+		}
+		leaves := backing[:n]
+		if n%3 == 0 {
+			leaves = backing[:n:n] // no spare capacity
 		}
 		orig := append([]vortex.Hash(nil), leaves...)
+		origTail := fmt.Sprint(backing[n:])
 		mt := vortex.BuildMerkleTree(leaves)
+		c.Check("BuildMerkleTree", L+"/Build/wrote-beyond-the-leaves", fmt.Sprint(backing[n:]) == origTail, func() string { return fmt.Sprintf("n=%d cap=%d", n, cap(leaves)) })
 		// model
 		p2 := 1
 		for p2 < n {
